@@ -84,7 +84,7 @@ PROPERTIES = {
     },
     "C02": {
         "quick": [rs("checked", "checked", 8.0)],
-        "thorough": [rs("checked", "checked"), rs("release", "release", 0.3)],
+        "thorough": [rs("checked", "checked", 5.0), rs("release", "release", 2.0)],
     },
     "C03": {
         "quick": [rs("checked", "checked", 4.0)],
@@ -100,11 +100,11 @@ PROPERTIES = {
     },
     "C06": {
         "quick": both(8.0),
-        "thorough": both(),
+        "thorough": both(10.0),
     },
     "C07": {
         "quick": both(6.0),
-        "thorough": both(),
+        "thorough": both(4.0),
     },
     "C08": {
         "quick": [rs("checked", "checked")],
@@ -116,23 +116,23 @@ PROPERTIES = {
     },
     "C10": {
         "quick": both(8.0),
-        "thorough": both(),
+        "thorough": both(20.0),
     },
     "C11": {
         "quick": [rs("checked", "checked", 3.0)],
-        "thorough": [rs("checked", "checked"), rs("release", "release", 0.3)],
+        "thorough": [rs("checked", "checked", 2.0), rs("release", "release", 0.5)],
     },
     "C12": {
         "quick": both(1.5),
-        "thorough": both(),
+        "thorough": both(2.0),
     },
     "C13": {
         "quick": [rs("checked", "checked", 4.0)],
-        "thorough": [rs("checked", "checked"), rs("release", "release", 0.3)],
+        "thorough": [rs("checked", "checked", 4.0), rs("release", "release", 1.0)],
     },
     "C14": {
         "quick": [rs("checked", "checked", 10.0)],
-        "thorough": [rs("checked", "checked"), rs("release", "release"), MIRI_C14],
+        "thorough": [rs("checked", "checked", 8.0), rs("release", "release", 8.0), MIRI_C14],
     },
     "C15": {
         "quick": [rs("release", "release", 4.0)],
@@ -140,13 +140,13 @@ PROPERTIES = {
     },
     "C16": {
         "quick": [rs("release", "release", 6.0)],
-        "thorough": [rs("release", "release"), rs("checked", "checked", 0.3),
+        "thorough": [rs("release", "release", 3.0), rs("checked", "checked", 1.0),
                      {"name": "tsan", "kind": "tsan", "schedules": 100},
                      {"name": "miri-race", "kind": "miri-race", "seeds": 16, "timeout": 2700}],
     },
     "C17": {
         "quick": [rs("release", "release", 8.0)],
-        "thorough": [rs("release", "release"), rs("checked", "checked", 0.3)],
+        "thorough": [rs("release", "release", 10.0), rs("checked", "checked", 2.0)],
     },
 }
 
